@@ -63,6 +63,11 @@ def main(path):
                 mm = json.load(open(res))["mismatches"]
                 print("mismatches now:", [m["code"] for m in mm])
                 again = any(m["code"] == r.get("code") for m in mm) or (mm and r.get("code") is None)
+        elif how == "model" and r["module"].startswith("AP_"):
+            import subprocess
+            p = subprocess.run(["apalache-mc", "check", "--length=0", f"--inv={r['invariant']}", f"--out-dir={work}/ap", os.path.join(ck.SPEC, r["module"] + ".tla")],
+                               cwd=work, stdout=subprocess.PIPE, stderr=subprocess.STDOUT, text=True, timeout=5000)
+            again = "The outcome is: NoError" not in p.stdout
         elif how == "model":
             cfg = ck.write_cfg(work, r["module"], constants=dict(r["constants"], EmitReplay="FALSE"), invariants=[r["invariant"]])
             o, _, _, ok = ck.tlc(r["module"], cfg, work, workers=8, timeout=3000)
